@@ -166,7 +166,10 @@ func (e *DtnEndpoint) UnmarshalCbor(r io.Reader) error {
 	} else {
 		switch m {
 		case cboring.UInt:
-			// dtn:none
+			// dtn:none is represented by the unsigned integer zero, no other value is defined
+			if n != 0 {
+				return fmt.Errorf("DtnEndpoint: integer SSP must be 0 for \"dtn:none\", not %d", n)
+			}
 			e.IsDtnNone = true
 
 		case cboring.TextString:
